@@ -736,6 +736,12 @@ impl fmt::Display for MuxerError {
 }
 
 impl std::error::Error for MuxerError {}
+
+/// Whether a finite, non-negative timestamp in seconds converts to media-clock ticks without
+/// saturating the 64-bit tick counter (`as u64` clamps silently).
+fn ticks_representable(secs: f64) -> bool {
+    (secs * MEDIA_TIMESCALE as f64).round() < u64::MAX as f64
+}
 impl<Writer: Write> Muxer<Writer> {
     /// Write a video frame to the container.
     ///
@@ -765,6 +771,11 @@ impl<Writer: Write> Muxer<Writer> {
         // Validate PTS is non-negative
         if pts < 0.0 {
             return Err(MuxerError::NegativeVideoPts { pts, frame_index });
+        }
+
+        // Validate PTS is representable on the media clock (no silent saturation)
+        if !ticks_representable(pts) {
+            return Err(MuxerError::InvalidVideoPts { pts, frame_index });
         }
 
         // Validate PTS is strictly increasing
@@ -835,6 +846,11 @@ impl<Writer: Write> Muxer<Writer> {
             return Err(MuxerError::NegativeVideoPts { pts, frame_index });
         }
 
+        // Validate PTS is representable on the media clock (no silent saturation)
+        if !ticks_representable(pts) {
+            return Err(MuxerError::InvalidVideoPts { pts, frame_index });
+        }
+
         // Validate DTS is finite (not NaN or Inf)
         if !dts.is_finite() {
             return Err(MuxerError::InvalidVideoDts { dts, frame_index });
@@ -843,6 +859,11 @@ impl<Writer: Write> Muxer<Writer> {
         // Validate DTS is non-negative
         if dts < 0.0 {
             return Err(MuxerError::NegativeVideoDts { dts, frame_index });
+        }
+
+        // Validate DTS is representable on the media clock (no silent saturation)
+        if !ticks_representable(dts) {
+            return Err(MuxerError::InvalidVideoDts { dts, frame_index });
         }
 
         // Note: PTS can be less than DTS for B-frames (displayed before their decode position)
@@ -931,6 +952,11 @@ impl<Writer: Write> Muxer<Writer> {
         // Validate PTS is non-negative
         if pts < 0.0 {
             return Err(MuxerError::NegativeAudioPts { pts, frame_index });
+        }
+
+        // Validate PTS is representable on the media clock (no silent saturation)
+        if !ticks_representable(pts) {
+            return Err(MuxerError::InvalidAudioPts { pts, frame_index });
         }
 
         // Validate frame is not empty
